@@ -224,6 +224,14 @@ class TT(testtools.TestResult):
         testtools.TestResult.stopTestRun(self)
         self.log.append(("stopTestRun",))
 
+    def tags(self, new_tags, gone_tags):
+        self.log.append(("tags", frozenset(new_tags), frozenset(gone_tags)))
+        testtools.TestResult.tags(self, new_tags, gone_tags)
+
+    def time(self, a_datetime):
+        self.log.append(("time", a_datetime))
+        testtools.TestResult.time(self, a_datetime)
+
 
 def _mk(name):
     def method(self, test, *args, **kwargs):
